@@ -21,8 +21,8 @@ RULE = ("header = valid base header + exactly one violation drawn from: required
         "p2c / iv / tag), registered parameter (alg, jku, jwk, kid, x5u, x5c, x5t, x5t#S256, typ, cty, crit, enc, zip, epk, apu, apv, p2s, "
         "p2c, iv, tag, skid, b64) given a value of each other JSON type, crit naming an absent parameter, b64 without crit (RFC 7797), "
         "unregistered name under strict checking, caller-registered parameter with wrong type / required but missing; or no violation "
-        "(caller-registered parameter with right type, unregistered name with strict off) which MUST be accepted. Position: protected, "
-        "unprotected, per-recipient; direction: produce (joserfc serializes) and consume (reference-minted valid token); JWS compact / "
+        "(caller-registered parameter with right type, unregistered name with strict off) which MUST be accepted; caller re-registration of kid / cty as required. Position: protected, "
+        "unprotected, per-recipient (also of the second of two recipients, every-recipient and any-recipient validation); direction: produce (joserfc serializes) and consume (reference-minted valid token); JWS compact / "
         "flattened / general / RFC 7797, JWE compact / flattened / general over dir, A128KW, ECDH-ES, PBES2, A128GCMKW. distinct = "
         "(rule, parameter, JSON type, position, direction, entry).")
 ASSUMPTIONS = ["DONT_CARE: bool where int is demanded (p2c: true), crit: [] and crit naming standard parameters, non-URL strings for jku/x5u, "
